@@ -80,6 +80,10 @@ def run(ctx):
     from .c03 import rule_foreign_feedback_table, spec_tables
     rule_foreign_feedback_table(ctx, idx, spec_tables(), rid="R16.7")
 
+    # ------------------------------------------------------------------ R16.8 (= R03.7)
+    from .c03 import rule_self_closing_ns
+    rule_self_closing_ns(ctx, mir, rid="R16.8")
+
     ctx.not_decided += ["exact range arithmetic of finish_attr_value (closing-quote offsets) at run time", "decoding of values (encoding_rs)"]
     return ("Typestate of the attribute-building actions over every path of the %d-state automaton, the lookup/edit discipline of Attributes, "
             "the getter-to-decoder mapping, where the reported namespace is read relative to tree-builder feedback, and a lint for byte-wise "
